@@ -230,6 +230,12 @@ func VerifC18Read(flen, withAddr, bufLen int) {
 	if withAddr != 0 {
 		boundIP = verifBytes("bound", 4)
 		bound.IP = net.IP(boundIP)
+		if withAddr == 2 {
+			// the same address in its 16-byte form (what net.IPv4 and net.ParseIP return)
+			bound.IP = make(net.IP, 16)
+			bound.IP[10], bound.IP[11] = 0xff, 0xff
+			copy(bound.IP[12:], boundIP)
+		}
 	}
 	conn := NewBroadcastUDPConn(raw, bound)
 	b := make([]byte, bufLen)
@@ -435,6 +441,40 @@ func VerifC18WriteShort(n, short int) {
 	if len(raw.sent) == 2 {
 		verifC18FrameOK(raw.sent[0], p1, wsrc, wdst, sport, dport)
 		verifC18FrameOK(raw.sent[1], p2, wsrc, wdst, sport, dport)
+	}
+	verifReach("end")
+}
+
+// VerifC18ReadThenWrite: a connection bound to a port only (no address) first receives a
+// well-formed frame addressed to a symbolic unicast address and its port, then writes a datagram:
+// the frame written carries the bound address (0.0.0.0) and port as its source, exactly as a write
+// made before any read does (nothing learned from what was received takes their place).
+func VerifC18ReadThenWrite(n int) {
+	in, out := verifBytes("payload", n), verifBytes("payload", n)
+	srvIP, _ := verifAddr4("server", 0)
+	myIP, _ := verifAddr4("mine", 0)
+	verifAssume(myIP[0] >= 1 && myIP[0] <= 223 && myIP[0] != 127) // a unicast address
+	dstIP, wdst := verifAddr4("dst", 0)
+	dport := verifU16("dport")
+	verifOverride("github.com/insomniacslk/dhcp/dhcpv4/nclient4.checksum", verifChecksumContract)
+	srvRaw := &verifRawConn{}
+	srv := NewBroadcastUDPConn(srvRaw, &net.UDPAddr{IP: srvIP, Port: 67})
+	_, werr := srv.WriteTo(in, &net.UDPAddr{IP: myIP, Port: 68})
+	verifAssert(werr == nil && len(srvRaw.sent) == 1, "write-ok")
+	if werr != nil || len(srvRaw.sent) != 1 {
+		return
+	}
+	raw := &verifRawConn{frames: [][]byte{srvRaw.sent[0]}}
+	conn := NewBroadcastUDPConn(raw, &net.UDPAddr{Port: 68})
+	buf := make([]byte, n+8)
+	rn, _, rerr := conn.ReadFrom(buf)
+	verifAssert(rerr == nil && rn == n, "well-formed-frame-is-returned")
+	_, e2 := conn.WriteTo(out, &net.UDPAddr{IP: dstIP, Port: int(dport)})
+	verifOverride("github.com/insomniacslk/dhcp/dhcpv4/nclient4.checksum", nil)
+	verifAssert(e2 == nil, "write-ok")
+	verifAssert(len(raw.sent) == 1, "one-frame-per-datagram")
+	if len(raw.sent) == 1 {
+		verifC18FrameOK(raw.sent[0], out, []byte{0, 0, 0, 0}, wdst, 68, dport)
 	}
 	verifReach("end")
 }
